@@ -1069,7 +1069,12 @@ fn positions(ex: &Exec, opname: &str, quick: bool, rng: &mut ChaChaRng) -> Vec<u
     }
     // heavy operations (a scan re-hashes note commitment trees: 50-130 ms a run) get fewer positions in quick
     let heavy = opname.starts_with("scan");
-    let (cap_w, cap_r, interior) = if !quick { (2500, 1500, 1500) } else if heavy { (50, 15, 48) } else { (120, 50, 64) };
+    let (cap_w, cap_r, interior) = match (quick, heavy) {
+        (true, true) => (50, 15, 48),
+        (true, false) => (120, 50, 64),
+        (false, true) => (700, 250, 500),
+        (false, false) => (2500, 1500, 1500),
+    };
     // every distinct statement text of the operation: the first step of its first and of its last
     // execution, and a step in the middle of the first
     let mut first: BTreeMap<&str, usize> = BTreeMap::new();
@@ -1288,6 +1293,13 @@ fn main() {
         build_state(&work, "B", seed.wrapping_mul(1000) + 2, true, true, 28, 12, false),
         build_state(&work, "M", seed.wrapping_mul(1000) + 3, true, false, 20, 14, true),
     ];
+    let mut states = states;
+    if !quick {
+        // the other journal mode of each wallet
+        states.push(build_state(&work, "Aw", seed.wrapping_mul(1000) + 1, false, true, 30, 10, false));
+        states.push(build_state(&work, "Br", seed.wrapping_mul(1000) + 2, true, false, 28, 12, false));
+        states.push(build_state(&work, "Mw", seed.wrapping_mul(1000) + 3, true, true, 20, 14, true));
+    }
     let shard: (usize, usize) = std::env::var("C02_SHARD").ok().and_then(|s| {
         let (a, b) = s.split_once('/')?;
         Some((a.parse().ok()?, b.parse().ok()?))
